@@ -150,7 +150,7 @@ def run(ctx):
     tid = 0
     shapes = [(2, 1), (2, 3), (3, 2), (4, 5)] if not thorough else [(2, 1), (2, 2), (2, 3), (3, 2), (3, 5), (4, 3), (5, 2)]
     for (d, draws) in shapes:
-        for rep in range(14 if thorough else 5):
+        for rep in range(60 if thorough else 5):
             tid += 1
             frame = rng.random() < 0.5
             minmax = rng.random() < 0.7
